@@ -54,7 +54,32 @@ func checkClosure(ts sgen.Tables, s *gtfs.Static) (bound int, err error) {
 			}
 		}
 		if len(accepted) != len(s.Stops) {
-			return 0, vt.Failf("stops.txt has %d rows with a stop_id, Stops has %d entries", len(accepted), len(s.Stops))
+			// the parser accepts a different set of rows than "has a stop_id" (which no listed property forbids): match every stop
+			// against the rows carrying its id instead of by position
+			byID := map[string][][]string{}
+			for _, r := range accepted {
+				id, _ := cell(tb, r, "stop_id")
+				byID[id] = append(byID[id], r)
+			}
+			for i := range s.Stops {
+				rows := byID[s.Stops[i].Id]
+				if len(rows) == 0 {
+					return 0, vt.Failf("Stops[%d] has id %q, which no stops.txt row carries", i, s.Stops[i].Id)
+				}
+				if p := s.Stops[i].Parent; p != nil {
+					bound++
+					ok := false
+					for _, r := range rows {
+						if want, _ := cell(tb, r, "parent_station"); want == p.Id {
+							ok = true
+						}
+					}
+					if !ok {
+						return 0, vt.FailSig("stop-parent-wrong-row", "Stops[%d] (%q): Parent is %q, which no stops.txt row with that stop_id names", i, s.Stops[i].Id, p.Id)
+					}
+				}
+			}
+			accepted = nil
 		}
 		for i, r := range accepted {
 			id, _ := cell(tb, r, "stop_id")
